@@ -34,3 +34,5 @@ Qed.
 (* structural facts extracted from the source (see tr/units.py gen_depth) *)
 Lemma worker_installs_depth_ok : worker_installs_depth = true. Proof. reflexivity. Qed.
 Lemma init_checks_depth_first_ok : init_checks_depth_first = true. Proof. reflexivity. Qed.
+Lemma early_ok : worker_installs_depth_before_user_code = true. Proof. reflexivity. Qed.
+Lemma guard_ok : bootstrapping_process_cannot_spawn = true. Proof. reflexivity. Qed.
